@@ -514,6 +514,20 @@ def run(ctx):
     if ctx.shard == 0:
         for cls, init, pos, steps in DIRECTED:
             ctx.run_case(lambda c, k: episode(c, k), {'cls': cls, 'init': init, 'pos': pos, 'steps': [list(x) for x in steps]})
+    # streams longer than 8 KiB / 64 KiB with a whole-byte pattern lying across a block edge, searched byte-aligned from several positions
+    for i in range(ctx.scale(6, 60)):
+        rng = ctx.rng
+        block = rng.choice([8192, 65536])
+        pat = '1' + util.rb(rng, 14) + '1' if rng.random() < 0.6 else '1111101011011110' + '00001010'[:8 * rng.randrange(2)]
+        nbytes = block + rng.choice([2, 5, 100])
+        off = rng.choice([0, 1, 2, len(pat) // 8 - 1])
+        at = 8 * (block - 1 - off % max(len(pat) // 8, 1))
+        m = '0' * at + pat + '0' * (8 * nbytes - at - len(pat))
+        if rng.random() < 0.5:
+            m = m[:8 * 40] + pat + m[8 * 40 + len(pat):]          # an earlier occurrence as well
+        steps = [['find', ['Bits', pat], True], ['readto', ['Bits', pat], True], ['setpos', 'pos', rng.choice([0, 8, 8 * 41, at - 8])], ['readto', ['str', pat], True],
+                 ['rfind', ['Bits', pat], None], ['find', ['Bits', pat], None], ['setpos', 'pos', 0], ['readto', ['Bits', pat], None]]
+        ctx.run_case(lambda c, k: episode(c, k), {'cls': rng.choice(util.STREAMS), 'init': m, 'pos': 0, 'steps': steps})
     n = ctx.scale(36000, 600000)
     lengths = [0, 1, 7, 8, 9, 16, 17, 24, 33, 64, 65, 100, 128, 257, 1000]
     for i in range(n):
